@@ -38,8 +38,15 @@ fn parse_header(header: &str) -> Result<Header, ParseError> {
         .peekable();
 
     let prefix = iterator.next().ok_or(ParseError::MissingPrefix)?;
+    // Once the CR of the line is present no later byte can supply what is missing:
+    // a partial keyword or a missing field is then an error, not an incomplete header.
+    let terminated = header.contains(CARRIAGE_RETURN);
 
-    if !prefix.is_empty() && PROTOCOL_PREFIX.starts_with(prefix) && header.ends_with(prefix) {
+    if !terminated
+        && !prefix.is_empty()
+        && PROTOCOL_PREFIX.starts_with(prefix)
+        && header.ends_with(prefix)
+    {
         return Err(ParseError::Partial);
     } else if prefix != PROTOCOL_PREFIX {
         return Err(ParseError::InvalidPrefix);
@@ -48,7 +55,7 @@ fn parse_header(header: &str) -> Result<Header, ParseError> {
     let addresses = match iterator.next() {
         Some(TCP4) => {
             let (source_address, destination_address, source_port, destination_port) =
-                parse_addresses::<Ipv4Addr, _>(&mut iterator)?;
+                parse_addresses::<Ipv4Addr, _>(&mut iterator, terminated)?;
 
             Addresses::Tcp4(IPv4 {
                 source_address,
@@ -59,7 +66,7 @@ fn parse_header(header: &str) -> Result<Header, ParseError> {
         }
         Some(TCP6) => {
             let (source_address, destination_address, source_port, destination_port) =
-                parse_addresses::<Ipv6Addr, _>(&mut iterator)?;
+                parse_addresses::<Ipv6Addr, _>(&mut iterator, terminated)?;
 
             Addresses::Tcp6(IPv6 {
                 source_address,
@@ -83,11 +90,12 @@ fn parse_header(header: &str) -> Result<Header, ParseError> {
                 Some(_) => Err(ParseError::InvalidSuffix),
             };
         }
-        Some(protocol) if protocol.is_empty() && iterator.peek().is_none() => {
+        Some(protocol) if !terminated && protocol.is_empty() && iterator.peek().is_none() => {
             return Err(ParseError::MissingProtocol)
         }
         Some(protocol)
-            if !protocol.is_empty()
+            if !terminated
+                && !protocol.is_empty()
                 && header.ends_with(protocol)
                 && (TCP4.starts_with(protocol) || UNKNOWN.starts_with(protocol)) =>
         {
@@ -115,15 +123,28 @@ fn parse_header(header: &str) -> Result<Header, ParseError> {
 /// Parses the addresses and ports from a PROXY protocol header for IPv4 and IPv6.
 fn parse_addresses<'a, T: FromStr<Err = AddrParseError>, I: Iterator<Item = &'a str>>(
     iterator: &mut Peekable<I>,
+    terminated: bool,
 ) -> Result<(T, T, u16, u16), ParseError> {
-    let source_address = iterator.next().ok_or(ParseError::MissingSourceAddress)?;
+    // In a terminated line a missing field is an empty field: it fails validation below.
+    let absent = terminated.then_some("");
+    let source_address = iterator
+        .next()
+        .or(absent)
+        .ok_or(ParseError::MissingSourceAddress)?;
     let destination_address = iterator
         .next()
+        .or(absent)
         .ok_or(ParseError::MissingDestinationAddress)?;
-    let source_port = iterator.next().ok_or(ParseError::MissingSourcePort)?;
-    let destination_port = iterator.next().ok_or(ParseError::MissingDestinationPort)?;
+    let source_port = iterator
+        .next()
+        .or(absent)
+        .ok_or(ParseError::MissingSourcePort)?;
+    let destination_port = iterator
+        .next()
+        .or(absent)
+        .ok_or(ParseError::MissingDestinationPort)?;
 
-    if destination_port.is_empty() && iterator.peek().is_none() {
+    if !terminated && destination_port.is_empty() && iterator.peek().is_none() {
         // The input ends right after the separator: the port has yet to arrive.
         return Err(ParseError::MissingDestinationPort);
     }
